@@ -14,9 +14,9 @@ import (
 
 func init() {
 	Register(&Spec{
-		ID: "C07",
+		ID:          "C07",
 		Explanation: "Decides ownership and layering conditions of RPC reference counting: (R1) the wire reference counts and table slots have exactly the writers the design names (expent.wireRefs: sendCap/releaseExport; impent.*: addImport; exports[i] = nil: releaseExport; whole tables: NewConn/shutdown); (R2) a table entry is tested non-nil before it is used; (R3) the Release message carries the wireRefs of the entry looked up in the same critical section, and the entry is deleted only after the generation test; (R4) every client obtained from AddRef() in package rpc is released on all paths, stored, returned or handed to a callee that takes ownership; (R5) shutdown releases the bootstrap client, every export, every answer's result caps, lifts every embargo and clears every table; (R6) releaseResultCaps is recorded only when the Finish message says so and exports are released by destroy only under that flag. Does NOT decide the numeric balance of counts over histories nor GC-leak reports.",
-		Run: runC07,
+		Run:         runC07,
 	})
 }
 
@@ -83,10 +83,21 @@ func ruleRefWriters(ctx *Ctx, rule string) {
 					counts[fld]++
 					k++
 					key := fmt.Sprintf("%s | writes %s.%s #%d", name, s.typ, s.field, k)
+					// a write inside a helper that did not exist on the reference tree is
+					// attributed to the reference-tree functions that call the helper
 					allowed := false
-					for _, a := range s.allowed {
-						if a == name {
-							allowed = true
+					if owners, ok := q.Attributed(f); ok {
+						allowed = true
+						for _, o := range owners {
+							found := false
+							for _, a := range s.allowed {
+								if a == o {
+									found = true
+								}
+							}
+							if !found {
+								allowed = false
+							}
 						}
 					}
 					pos := q.Pos(ssaq.InstrPos(in))
@@ -129,14 +140,21 @@ func ruleRefWriters(ctx *Ctx, rule string) {
 				if ia, ok := st.Addr.(*ssa.IndexAddr); ok && ssaq.IsNilConst(st.Val) {
 					if fld, _ := ssaq.LoadedField(ia.X); fld == exportsF {
 						eq := false
+						le, ge := false, false // count <= wireRefs, count >= wireRefs
 						for _, at := range atoms {
-							if at.Op == token.EQL {
-								fx, _ := ssaq.LoadedField(at.X)
-								fy, _ := ssaq.LoadedField(at.Y)
-								if fx == wr || fy == wr {
-									eq = true
-								}
+							fx, _ := ssaq.LoadedField(at.X)
+							fy, _ := ssaq.LoadedField(at.Y)
+							switch {
+							case at.Op == token.EQL && (fx == wr || fy == wr):
+								eq = true
+							case (at.Op == token.LEQ && fy == wr) || (at.Op == token.GEQ && fx == wr):
+								le = true
+							case (at.Op == token.GEQ && fy == wr) || (at.Op == token.LEQ && fx == wr):
+								ge = true
 							}
+						}
+						if le && ge {
+							eq = true // guard clauses: !(count > w) && !(count < w)
 						}
 						key := "rpc.(*Conn).releaseExport | slot cleared only when count == wireRefs"
 						if eq {
@@ -224,6 +242,8 @@ func ruleReleaseMessage(ctx *Ctx, rule string) {
 				}
 				found = true
 				arg := stripConv(in.(ssa.CallInstruction).Common().Args[1])
+				// the count may be read into a local (or a captured variable) first
+				arg = stripConv(ssaq.ResolveLocal(arg))
 				fld, _ := ssaq.LoadedField(arg)
 				key := "importClient.Shutdown | Release.referenceCount = ent.wireRefs"
 				if fld == wr {
